@@ -213,7 +213,9 @@ func sideOutputs(sc Scenario, ex *Expect) []string {
 
 func site(sc Scenario) string {
 	s := sc.Op
-	if sc.srvMode() != "" {
+	if m := sc.srvMode(); strings.HasPrefix(m, "st-") {
+		s += "/server-answer"
+	} else if m != "" {
 		s += "/interrupted-download"
 	}
 	if sc.damage() != "" {
@@ -332,6 +334,9 @@ func (e *env) traceScenario(sc Scenario, verbose bool) (*scenarioResult, *RunRes
 	if sc.mayFail() {
 		// the server misbehaves / the archive is damaged: the operation may fail, the oracle is evaluated after it returned
 		family, m := "interrupted-download", sc.srvMode()
+		if strings.HasPrefix(m, "st-") {
+			family = "server-answer"
+		}
 		if m == "" {
 			family, m = "damaged-archive", sc.damage()
 		}
@@ -515,6 +520,10 @@ var srvModes = []string{
 	"close-full", "close-cut-0", "close-cut-1", "close-cut-half", "close-cut-allbut1",
 	"cl-cut-0", "cl-cut-1", "cl-cut-half", "cl-cut-allbut1",
 	"chunked-full", "chunked-cut-midchunk", "chunked-cut-boundary",
+	// server answers other than "200 with the resource": complete bodies under another
+	// status or behind a redirect, empty answers, an unsolicited partial answer, error pages
+	"st-200-full", "st-203-full", "st-204", "st-205", "st-206-half", "st-206-full",
+	"st-301", "st-302", "st-304", "st-404", "st-500", "st-503",
 }
 
 // wantPoints: are the fault points of this scenario enumerated as well? The
@@ -528,7 +537,7 @@ func (e *env) wantPoints(sc Scenario) bool {
 		return false
 	}
 	switch sc.srvMode() + sc.damage() {
-	case "close-cut-half", "cl-cut-half", "chunked-cut-midchunk":
+	case "close-cut-half", "cl-cut-half", "chunked-cut-midchunk", "st-206-half":
 		return sc.Old == "small"
 	case "deflate-cut-half", "stored-cut-half", "gz-cut-half":
 		return true
@@ -1014,6 +1023,8 @@ func serveRaw(conn net.Conn, files map[string][]byte) {
 	case mode == "chunked-cut-midchunk": // one chunk announced with the full size, half of it sent
 		fmt.Fprintf(&out, "HTTP/1.1 200 OK\r\nTransfer-Encoding: chunked\r\nConnection: close\r\n\r\n%x\r\n", len(data))
 		out.Write(data[:k])
+	case strings.HasPrefix(mode, "st-"):
+		statusAnswer(&out, mode, path, data)
 	case mode == "chunked-cut-boundary": // a complete first chunk with half of the data, then nothing
 		fmt.Fprintf(&out, "HTTP/1.1 200 OK\r\nTransfer-Encoding: chunked\r\nConnection: close\r\n\r\n%x\r\n", k)
 		out.Write(data[:k])
@@ -1022,4 +1033,38 @@ func serveRaw(conn net.Conn, files map[string][]byte) {
 		return
 	}
 	_, _ = conn.Write(out.Bytes())
+}
+
+// statusAnswer writes a well-framed answer (Content-Length matches the body
+// sent) with the status given by the mode st-<code>[-half|-full].
+func statusAnswer(out *bytes.Buffer, mode, path string, data []byte) {
+	f := strings.Split(mode, "-")
+	code, _ := strconv.Atoi(f[1])
+	head := func(extra string, n int) {
+		fmt.Fprintf(out, "HTTP/1.1 %d %s\r\nContent-Type: application/octet-stream\r\n%sContent-Length: %d\r\nConnection: close\r\n\r\n", code, http.StatusText(code), extra, n)
+	}
+	switch code {
+	case 200, 203:
+		head("", len(data))
+		out.Write(data)
+	case 204, 205, 304: // no body
+		head("", 0)
+	case 206:
+		part := data
+		if len(f) > 2 && f[2] == "half" {
+			part = data[:len(data)/2]
+		}
+		last := len(part) - 1
+		if last < 0 {
+			last = 0
+		}
+		head(fmt.Sprintf("Content-Range: bytes 0-%d/%d\r\n", last, len(data)), len(part))
+		out.Write(part)
+	case 301, 302: // redirect to the real content
+		head("Location: /mode/st-200-full"+path+"\r\n", 0)
+	default: // error page in place of the resource
+		page := []byte(fmt.Sprintf("<html><body><h1>%d %s</h1></body></html>\n", code, http.StatusText(code)))
+		head("", len(page))
+		out.Write(page)
+	}
 }
